@@ -286,7 +286,13 @@ func (s *hsServer) serve(sc hsScript, done *atomic.Bool, out chan<- hsResult) {
 func hsFrames(n int) []wsref.Frame {
 	var fs []wsref.Frame
 	for i := 0; i < n; i++ {
-		fs = append(fs, wsref.Frame{Fin: true, Op: wsref.OpBinary, Payload: payloadBytes(i+1, 3+4*i)})
+		p := payloadBytes(i+1, 3+4*i)
+		if i == 1 {
+			// the second frame's payload contains a blank line of its own: the end of the response header is the
+			// FIRST blank line of the stream, wherever later ones are
+			p = append([]byte("x\r\n\r\ny"), p...)
+		}
+		fs = append(fs, wsref.Frame{Fin: true, Op: wsref.OpBinary, Payload: p})
 	}
 	return fs
 }
@@ -327,6 +333,7 @@ var c18Priors = []string{
 	"established; a ping was read, the server reset the connection, the next read failed (the pong could not be flushed); dropped",
 	"established; a frame with RSV1 was read (error reported, Close 1002 queued), never flushed; dropped",
 	"established; the server reset the connection, a blocking Write failed; dropped",
+	"established; the client sent its Close, then a WriteFrame of a pooled frame with a 100-byte payload was refused; dropped",
 }
 
 func c18Body(x *engine.X) { c18BodyOpt(x, false) }
@@ -413,7 +420,7 @@ func c18BodyOpt(x *engine.X, onlyFailing bool) {
 			pframes = []wsref.Frame{{Fin: true, Op: wsref.OpPing, Payload: []byte("pp")}}
 		case 4:
 			pframes = []wsref.Frame{{Fin: true, Rsv: 4, Op: wsref.OpText, Payload: []byte("x")}}
-		case 5:
+		case 5, 6:
 			pframes = nil
 		}
 		if prior == 2 {
@@ -452,6 +459,13 @@ func c18BodyOpt(x *engine.X, onlyFailing bool) {
 			if _, err := ws.NextFrame(); err == nil {
 				x.Inconclusive("prior session: the RSV1 frame was not reported")
 			}
+		case 6:
+			ws.Close(websocket.CloseNormal, "")
+			late := ws.AcquireFrame()
+			late.SetFIN().SetBinary().SetPayload(payloadBytes(77, 100))
+			if err := ws.WriteFrame(late); err == nil {
+				x.Inconclusive("prior session: a WriteFrame after Close was accepted")
+			}
 		case 5:
 			kern.Abort(pres.conn)
 			pres.conn = -1
@@ -471,7 +485,7 @@ func c18BodyOpt(x *engine.X, onlyFailing bool) {
 	sc := hsScript{variant: v, frames: hsFrames(nfr)}
 	// on a stream that had a session before, the first frame sent with the response is a Ping: reading it queues a
 	// Pong (a pooled frame), which must go out ahead of the first message — with the ping's payload, not the message's
-	pingFirst := nfr >= 1 && prior >= 2
+	pingFirst := nfr >= 1 && prior >= 2 && prior != 6 // (6: the first thing written is the bare pooled frame, see below)
 	if pingFirst {
 		sc.frames[0] = wsref.Frame{Fin: true, Op: wsref.OpPing, Payload: []byte("ping-of-the-new-session")}
 	}
@@ -595,68 +609,114 @@ func c18BodyOpt(x *engine.X, onlyFailing bool) {
 			} else {
 				defer invented()
 			}
-			// "behaves like a fresh one", outbound side: the first thing the server receives after the request is the
-			// first message the application writes on this session — nothing an earlier session left behind
-			msg := []byte("first message of this session")
-			var werr error
-			if async {
-				wcalls := 0
-				ws.AsyncWrite(msg, websocket.TypeText, func(err error) { wcalls++; werr = err })
-				for k := 0; k < 60 && wcalls == 0; k++ {
-					ioc.RunOneFor(10 * time.Millisecond)
-				}
-				if wcalls != 1 {
-					x.Fail("handshake/session-write/callback-count", "AsyncWrite after the handshake: callback ran %d times", wcalls)
-				}
-			} else {
-				werr = ws.Write(msg, websocket.TypeText)
-			}
-			if werr != nil {
-				x.Fail("handshake/session-write/error", "the first write of the session failed: %v (prior: %s)", werr, c18Priors[prior])
-			}
-			want := 6 + len(msg) // header 2 + mask 4 + payload
-			if pingFirst {
-				want += 6 + len("ping-of-the-new-session")
-			}
-			var got []byte
 			buf := make([]byte, 4096)
-			for len(got) < want && kern.AwaitReadReady(res.conn, settleGuard) {
-				n, err := syscall.Read(res.conn, buf)
-				if err != nil || n <= 0 {
-					break
+			probeMessage := func() {
+				// "behaves like a fresh one", outbound side: the first thing the server receives after the request is the
+				// first message the application writes on this session — nothing an earlier session left behind
+				msg := []byte("first message of this session")
+				var werr error
+				if async {
+					wcalls := 0
+					ws.AsyncWrite(msg, websocket.TypeText, func(err error) { wcalls++; werr = err })
+					for k := 0; k < 60 && wcalls == 0; k++ {
+						ioc.RunOneFor(10 * time.Millisecond)
+					}
+					if wcalls != 1 {
+						x.Fail("handshake/session-write/callback-count", "AsyncWrite after the handshake: callback ran %d times", wcalls)
+					}
+				} else {
+					werr = ws.Write(msg, websocket.TypeText)
 				}
-				got = append(got, buf[:n]...)
-			}
-			frames, rest, _ := wsref.ParseAll(got, 1<<20)
-			if pingFirst {
-				if len(frames) < 1 || frames[0].Op != wsref.OpPong || string(frames[0].Payload) != "ping-of-the-new-session" || !frames[0].Masked {
+				if werr != nil {
+					x.Fail("handshake/session-write/error", "the first write of the session failed: %v (prior: %s)", werr, c18Priors[prior])
+				}
+				want := 6 + len(msg) // header 2 + mask 4 + payload
+				if pingFirst {
+					want += 6 + len("ping-of-the-new-session")
+				}
+				var got []byte
+				for len(got) < want && kern.AwaitReadReady(res.conn, settleGuard) {
+					n, err := syscall.Read(res.conn, buf)
+					if err != nil || n <= 0 {
+						break
+					}
+					got = append(got, buf[:n]...)
+				}
+				frames, rest, _ := wsref.ParseAll(got, 1<<20)
+				if pingFirst {
+					if len(frames) < 1 || frames[0].Op != wsref.OpPong || string(frames[0].Payload) != "ping-of-the-new-session" || !frames[0].Masked {
+						var desc []string
+						for _, f := range frames {
+							desc = append(desc, fmt.Sprintf("op=%d len=%d %q", f.Op, len(f.Payload), clip(f.Payload)))
+						}
+						x.Fail("handshake/session-not-fresh/outbound/pong", "the new session's server sent a Ping with the response, the client read it and then wrote one text message; the server received [%s] — expected the Pong echoing the ping, then the message (prior: %s)", strings.Join(desc, "; "), c18Priors[prior])
+					}
+					frames = frames[1:]
+				}
+				if len(frames) < 1 || frames[0].Op != wsref.OpText || string(frames[0].Payload) != string(msg) || !frames[0].Masked || len(frames) > 1 || len(rest) > 0 {
 					var desc []string
 					for _, f := range frames {
 						desc = append(desc, fmt.Sprintf("op=%d len=%d %q", f.Op, len(f.Payload), clip(f.Payload)))
 					}
-					x.Fail("handshake/session-not-fresh/outbound/pong", "the new session's server sent a Ping with the response, the client read it and then wrote one text message; the server received [%s] — expected the Pong echoing the ping, then the message (prior: %s)", strings.Join(desc, "; "), c18Priors[prior])
-				}
-				frames = frames[1:]
-			}
-			if len(frames) < 1 || frames[0].Op != wsref.OpText || string(frames[0].Payload) != string(msg) || !frames[0].Masked || len(frames) > 1 || len(rest) > 0 {
-				var desc []string
-				for _, f := range frames {
-					desc = append(desc, fmt.Sprintf("op=%d len=%d %q", f.Op, len(f.Payload), clip(f.Payload)))
-				}
-				sig := "handshake/session-not-fresh/outbound"
-				if len(frames) > 0 {
-					switch frames[0].Op {
-					case wsref.OpPong:
-						sig += "/stale-pong"
-					case wsref.OpClose:
-						sig += "/stale-close"
-					case wsref.OpText, wsref.OpBinary:
-						if string(frames[0].Payload) != string(msg) {
-							sig += "/stale-data"
+					sig := "handshake/session-not-fresh/outbound"
+					if len(frames) > 0 {
+						switch frames[0].Op {
+						case wsref.OpPong:
+							sig += "/stale-pong"
+						case wsref.OpClose:
+							sig += "/stale-close"
+						case wsref.OpText, wsref.OpBinary:
+							if string(frames[0].Payload) != string(msg) {
+								sig += "/stale-data"
+							}
 						}
 					}
+					x.Fail(sig, "after the handshake the application wrote one text message; the server received %d bytes: frames [%s] + %d further bytes (prior: %s)", len(got), strings.Join(desc, "; "), len(rest), c18Priors[prior])
 				}
-				x.Fail(sig, "after the handshake the application wrote one text message; the server received %d bytes: frames [%s] + %d further bytes (prior: %s)", len(got), strings.Join(desc, "; "), len(rest), c18Priors[prior])
+			}
+			probeBareFrame := func() {
+				// ... and a frame taken from the stream's pool and sent as it comes (FIN + Ping, no SetPayload) is an empty
+				// Ping: nothing an earlier session put into a pooled frame shows through
+				bare := ws.AcquireFrame()
+				bare.SetFIN().SetPing()
+				var berr error
+				if async {
+					bcalls := 0
+					ws.AsyncWriteFrame(bare, func(err error) { bcalls++; berr = err })
+					for k := 0; k < 60 && bcalls == 0; k++ {
+						ioc.RunOneFor(10 * time.Millisecond)
+					}
+				} else {
+					berr = ws.WriteFrame(bare)
+				}
+				if berr != nil {
+					x.Fail("handshake/session-write/error", "WriteFrame of a bare Ping on the new session failed: %v (prior: %s)", berr, c18Priors[prior])
+				}
+				var got2 []byte
+				for len(got2) < 6 && kern.AwaitReadReady(res.conn, settleGuard) {
+					n, err := syscall.Read(res.conn, buf)
+					if err != nil || n <= 0 {
+						break
+					}
+					got2 = append(got2, buf[:n]...)
+				}
+				if kern.AwaitReadReady(res.conn, 2*time.Millisecond) {
+					if n, err := syscall.Read(res.conn, buf); err == nil && n > 0 {
+						got2 = append(got2, buf[:n]...)
+					}
+				}
+				pf, prest, _ := wsref.ParseAll(got2, 1<<20)
+				if len(pf) != 1 || pf[0].Op != wsref.OpPing || len(pf[0].Payload) != 0 || !pf[0].Fin || len(prest) != 0 {
+					x.Fail("handshake/session-not-fresh/pooled-frame", "a frame acquired from the pool and sent with only FIN and the Ping opcode set reached the server as %d bytes % x — expected an empty masked Ping (prior: %s)", len(got2), clip(got2), c18Priors[prior])
+				}
+			}
+			if prior == 6 {
+				// the frame the earlier session was refused is in the pool: take it out first, as it comes
+				probeBareFrame()
+				probeMessage()
+			} else {
+				probeMessage()
+				probeBareFrame()
 			}
 		}
 		return
